@@ -44,8 +44,8 @@ def module(fmt):
     return importlib.import_module("lib.c15." + fmt)
 
 
-def run(net, fmt, lexseed, level):
-    key = json.dumps([net, fmt, lexseed, level], sort_keys=True)
+def run(net, fmt, lexseed, level, enc=None):
+    key = json.dumps([net, fmt, lexseed, level, enc], sort_keys=True)
     if key in _cache:
         return _cache[key]
     R = module(fmt)
@@ -53,11 +53,15 @@ def run(net, fmt, lexseed, level):
     try:
         lex = R.Lex(random.Random(lexseed), level)
         text = R.render(net, lex)
-        data = text.encode("iso-8859-1") if isinstance(text, str) else text
+        data = text.encode(enc or "iso-8859-1") if isinstance(text, str) else text
         res["text"] = data
         out = io.StringIO()
+        opts = {}
+        if enc and isinstance(text, str):
+            # the text formats are read with the import encoding option that says how the file is encoded
+            opts = {"dbcImportEncoding": enc, "dbcImportCommentEncoding": enc, "symImportEncoding": enc, "dbfImportEncoding": enc}
         with contextlib.redirect_stdout(out):
-            dbs = canmatrix.formats.loads(data, fmt)
+            dbs = canmatrix.formats.loads(data, fmt, **opts)
         db = list(dbs.values())[0] if isinstance(dbs, dict) else dbs
         res["db"] = db
         res["errors"] = out.getvalue().count("error with line no") + len(getattr(db, "load_errors", []) or [])
@@ -126,6 +130,8 @@ def gen(rng, tier, shard, nshards):
         level = 0 if rng.random() < 0.2 else 1
         lexseed = rng.randrange(1 << 30)
         base = {"fmt": fmt, "net": net, "lexseed": lexseed, "level": level}
+        if fmt in ("dbc", "sym", "dbf"):
+            base["enc"] = rng.choice(["iso-8859-1", "utf-8"])
         for f in net["frames"]:
             yield {"op": "read", "c": dict(base, fid=f["id"], ext=f["ext"], desc=N.expected_frame(f))}
         if fmt != "sym":          # SYM knows no ECUs
@@ -133,7 +139,7 @@ def gen(rng, tier, shard, nshards):
         if any(net.get("defs", {}).get(lvl) for lvl in LEVELS):
             yield {"op": "defs", "c": dict(base, want=want_defs(net, fmt))}
         if fmt == "dbc":
-            r = run(net, fmt, lexseed, level)
+            r = run(net, fmt, lexseed, level, base.get("enc"))
             if r["text"] is not None:
                 lines = [l.rstrip("\r") for l in r["text"].decode("iso-8859-1").split("\n")]
                 sg = [l for l in lines if l.lstrip().startswith("SG_ ")]
@@ -162,7 +168,7 @@ def observe(case):
     if op == "box":
         rb = c05.real_blocks([c["line"], ' SG_ x : 0|1@1+ (1,0) [0|1] "" X'], "iso-8859-1")
         return {"parsed": rb[0]["bo"] if rb else None}
-    r = run(c["net"], c["fmt"], c["lexseed"], c["level"])
+    r = run(c["net"], c["fmt"], c["lexseed"], c["level"], c.get("enc"))
     if r["exc"]:
         return {"exc": r["exc"], "got": None, "errors": 0, "ecus": []}
     db = r["db"]
@@ -188,6 +194,8 @@ def features(case, impl):
     yield "op=" + case["op"]
     if case["op"] in ("read", "ecus", "defs"):
         yield "fmt=%s/level%d" % (c["fmt"], c["level"])
+        if c.get("enc"):
+            yield "encoding=%s/%s" % (c["fmt"], c["enc"])
     if case["op"] == "defs":
         for lvl in LEVELS:
             for name, (kind, _, default) in c["want"][lvl].items():
